@@ -29,7 +29,7 @@ def place(product, kind):
     import fsspec
 
     if kind in ("local", "file", "local-unicode"):
-        d = tempfile.mkdtemp(prefix="prod-" if kind != "local-unicode" else "prod-donn\u00e9es-\u65e5\u672c-", dir=common.SCRATCH)
+        d = tempfile.mkdtemp(prefix="prod-" if (kind != "local-unicode" or common.FS_ASCII) else "prod-donn\u00e9es-\u65e5\u672c-", dir=common.SCRATCH)
         synth.write_product(product, d)
         path = "file://" + d if kind == "file" else d
         return path, lambda: shutil.rmtree(d, ignore_errors=True)
